@@ -275,6 +275,11 @@ def rule_c20_atomic(prog: Program, col: Collector) -> None:
                       construct="replace-before-close",
                       necessity="renaming a file that is still open/unflushed can install a truncated file",
                       rule="A3")
+            exc_path = [f for f in r.ev.ctx if f[0] == "try" and f[2] in ("finally", "except")]
+            col.check(not exc_path, r.ref.where(r.ev.node), r.ref.short, "the replace happens on the normal path only (not in a finally / except block)",
+                      construct="replace-on-exception-path",
+                      necessity="a finally-block installs the temporary file also when writing it failed or was interrupted: the results file is replaced by a truncated one",
+                      rule="A3")
             is_atomic = not is_global(r.ev.func, "shutil.move")
             if not is_atomic:
                 col.assume("shutil.move on a sibling path reduces to os.rename (same file system)")
